@@ -23,6 +23,12 @@ def askJson : Ask → Json
     Json.mkObj [("ask", "x509CheckSig"), ("der", hex der), ("alg", alg), ("msg", hex msg), ("sig", hex sig)]
   | .tpmHashes => Json.mkObj [("ask", "tpmHashes")]
   | .safetyNet raw => Json.mkObj [("ask", "safetyNet"), ("raw", hex raw)]
+  | .x509Verify leaf inter dns =>
+    Json.mkObj [("ask", "x509Verify"), ("leaf", hex leaf), ("intermediates", Json.arr ((inter.map (fun d => (hex d : Json))).toArray)), ("dns", hex dns)]
+  | .jwsVerify raw leaf => Json.mkObj [("ask", "jwsVerify"), ("raw", hex raw), ("leaf", hex leaf)]
+  | .x509VerifyPool leaf inter pool =>
+    Json.mkObj [("ask", "x509VerifyPool"), ("leaf", hex leaf), ("intermediates", Json.arr ((inter.map (fun d => (hex d : Json))).toArray)), ("pool", pool)]
+  | .blobPayload payload => Json.mkObj [("ask", "blobPayload"), ("payload", hex payload)]
   | .jwsHeaders raw => Json.mkObj [("ask", "jwsHeaders"), ("raw", hex raw)]
   | .jwsChain raw i pool => Json.mkObj [("ask", "jwsChain"), ("raw", hex raw), ("i", i), ("pool", pool)]
   | .jwsClaims raw leaf => Json.mkObj [("ask", "jwsClaims"), ("raw", hex raw), ("leaf", hex leaf)]
@@ -69,10 +75,10 @@ def parseSans (j : Json) : Except String (List Tpm.SanExt) := do
 def parseResp (q : Ask) (j : Json) : Except String Resp := do
   if j.isNull then return .none
   match q with
-  | .sha256 _ | .hash _ _ | .jwsChain .. | .jwsClaims .. =>
+  | .sha256 _ | .hash _ _ | .jwsChain .. | .jwsClaims .. | .blobPayload _ =>
     return .bytes (← getHex j "bytes")
   | .jwsHeaders _ => return .nat (← getNat j "nat")
-  | .sigVerify .. | .x509CheckSig .. => return .bool (← getBool j "bool")
+  | .sigVerify .. | .x509CheckSig .. | .x509Verify .. | .x509VerifyPool .. | .jwsVerify .. => return .bool (← getBool j "bool")
   | .x509Parse _ => return .cert (← parseCert j)
   | .tpmHashes =>
     let hs ← (← getArr j "hashes").toList.mapM fun p => do
